@@ -615,9 +615,9 @@ def lin(t):
         if op in ("Mul", "MulUnchecked"):
             a, b = lin(t[2]), lin(t[3])
             if a.is_const():
-                return b.scale(a.c)
+                return _undiv(b.scale(a.c))
             if b.is_const():
-                return a.scale(b.c)
+                return _undiv(a.scale(b.c))
             # canonical product atom
             x, y = sorted([t[2], t[3]], key=repr)
             return Lin(0, {("prod", strip(x), strip(y)): 1})
@@ -689,6 +689,18 @@ def lin(t):
         y = ("bin", "Add", t[2][0], ("c", c - 1), t[3] if len(t) > 3 else None)
         return lin(y).add(Lin(0, {("rem", canon(y), c): 1}), -1)
     return Lin(0, {strip(t): 1})
+
+
+def _undiv(l):
+    """d * (y div d) = y - (y mod d): a rounded-down multiple is written with the `rem` atom, so that `(x + 7) / 8 * 8`,
+    `(x + 7) & !7` and `x + 7 - (x + 7) % 8` are one linear form"""
+    out = l
+    for a, v in list(l.m.items()):
+        if isinstance(a, tuple) and a and a[0] == "div" and isinstance(a[2], int) and a[2] > 0 and v % a[2] == 0 and isinstance(a[1], tuple) and a[1][:1] == ("lin",):
+            k = v // a[2]
+            y = Lin(a[1][1], dict(a[1][2]))
+            out = out.add(Lin(0, {a: v}), -1).add(y, k).add(Lin(0, {("rem", a[1], a[2]): 1}), -k)
+    return out
 
 
 def _rem_lin(x, m):
